@@ -44,8 +44,17 @@ func withLanguage(lang string, run func(opts []z.ExecOption)) {
 	var opts []z.ExecOption
 	if lang != "default" {
 		// languages are registered under the keys an application chooses: plain codes and a regional tag
-		i18n.SetLanguagesErrsMap(map[string]i18n.LangMap{"en": en.Map, "es": es.Map, "es-MX": es.Map}, "en")
+		langs := map[string]i18n.LangMap{"en": en.Map, "es": es.Map, "es-MX": es.Map}
+		if strings.HasPrefix(lang, "i18n-langkey") {
+			i18n.SetLanguagesErrsMap(langs, "en", i18n.WithLangKey("locale")) // the context key that names the language is configurable
+		} else {
+			i18n.SetLanguagesErrsMap(langs, "en")
+		}
 		switch lang {
+		case "i18n-langkey-es":
+			opts = append(opts, z.WithCtxValue("locale", "es"))
+		case "i18n-langkey-other-key": // the default key means nothing once another key is configured
+			opts = append(opts, z.WithCtxValue(i18n.LangKey, "es"))
 		case "i18n-es-MX":
 			opts = append(opts, z.WithCtxValue(i18n.LangKey, "es-MX"))
 		case "i18n-en":
@@ -59,7 +68,7 @@ func withLanguage(lang string, run func(opts []z.ExecOption)) {
 	run(opts)
 }
 
-var c11Langs = []string{"default", "i18n-en", "i18n-es", "i18n-none", "i18n-unknown", "i18n-es-MX"}
+var c11Langs = []string{"default", "i18n-en", "i18n-es", "i18n-none", "i18n-unknown", "i18n-es-MX", "i18n-langkey-es", "i18n-langkey-other-key"}
 
 func c11Cells(yield func(c11Cell)) {
 	t0 := time.Date(2024, 5, 6, 7, 8, 9, 0, time.UTC)
@@ -292,7 +301,7 @@ func propC11Cell(c c11Cell) hh.Verdict {
 	}
 	// the message is what THIS cell's language produces for this issue (not a leftover of another execution)
 	langMap := en.Map
-	if c.Lang == "i18n-es" || c.Lang == "i18n-es-MX" {
+	if c.Lang == "i18n-es" || c.Lang == "i18n-es-MX" || c.Lang == "i18n-langkey-es" {
 		langMap = es.Map
 	}
 	cp := *is
@@ -523,7 +532,7 @@ func propC11Seq(c c11Seq) hh.Verdict {
 
 func TestC11(t *testing.T) {
 	h := hh.Start(t, "C11",
-		"Part A (exhaustive): every built-in test of every schema type (string 14 + 12 negated, numbers 6 x 5 widths, bool 3, time 3, slice 4+1), required (9 types), not_nil (pointer to 10 types), coerce (9 types), invalid_json (zjson and zhttp, 5 bodies) and invalid_form (3 bodies) x mode x formatter configuration {default, i18n with lang en / es / es-MX (regional key) / none / unknown}; each cell constructs a failing input and inspects the single resulting issue; every cell is non-trivial and distinct. Part B (random): generated schemas/inputs x formatter configurations with a distinguishable marker per level; non-trivial = an issue for which >=2 levels were configured",
+		"Part A (exhaustive): every built-in test of every schema type (string 14 + 12 negated, numbers 6 x 5 widths, bool 3, time 3, slice 4+1), required (9 types), not_nil (pointer to 10 types), coerce (9 types), invalid_json (zjson and zhttp, 5 bodies) and invalid_form (3 bodies) x mode x formatter configuration {default, i18n with lang en / es / es-MX (regional key) / none / unknown, i18n with a configured context key (WithLangKey)}; each cell constructs a failing input and inspects the single resulting issue; every cell is non-trivial and distinct. Part B (random): generated schemas/inputs x formatter configurations with a distinguishable marker per level; non-trivial = an issue for which >=2 levels were configured",
 		"Part A: code, schema type, params deep-equal to the method's arguments under the documented key, value reference dereferencing to the offending value (coerce: the input), non-empty message without {{placeholders}}. Part B: each issue's message is the marker of the most specific level (test Message/MessageFunc > WithIssueFormatter > global; with i18n the language named in this execution's context, else the default language)",
 		"Bool True()/False(): code eq or true/false accepted (documentation names both); the value reference of decode failures is not asserted (the body is consumed)")
 	defer h.Finish()
